@@ -710,6 +710,9 @@ func (c *Ctx) execFor(x *ast.ForStmt, s *State, label string) []Exit {
 // loopCut implements the invariant cut. iter executes one iteration from the loop head: exits of kind
 // xFall/xContinue go back to the head, xBreak (matching) leave the loop.
 func (c *Ctx) loopCut(node ast.Stmt, pos token.Pos, s *State, li loopInfo, iter func(*State) []Exit, atHead func(*State)) []Exit {
+	if li.spec != nil {
+		c.loopEntry[li.ord] = s.clone()
+	}
 	c.checkInvariants(s, li, "inv-init", pos)
 	if li.spec != nil && li.spec.Decreases != nil {
 		c.variantAt[li.ord] = "0" // placeholder during the dry run
@@ -736,7 +739,7 @@ func (c *Ctx) loopCut(node ast.Stmt, pos token.Pos, s *State, li loopInfo, iter 
 	}
 	var out []Exit
 	var leave []*State
-	if li.spec != nil && len(li.spec.Steps) > 0 {
+	if li.spec != nil {
 		c.loopHeads[li.ord] = head.clone()
 	}
 	checkSteps := func(st *State, what string) {
@@ -827,6 +830,12 @@ func (c *Ctx) execRange(x *ast.RangeStmt, s *State, label string) []Exit {
 		return c.loopCut(x, x.Pos(), s, li, iter, atHead)
 	case *types.Map:
 		m := asInt(c.eval(x.X, s))
+		if strings.HasPrefix(m, "(") {
+			// a compound term (e.g. an ite after a merge) gets a name so that quantified facts about the map keep triggers
+			n := c.fresh("rngmap", sInt)
+			s.assume(eq(n, m))
+			m = n
+		}
 		name := mapKeyName(u)
 		// ghost set of visited keys
 		visKey := fmt.Sprintf("L.visited%d", ord)
@@ -867,6 +876,8 @@ func (c *Ctx) execRange(x *ast.RangeStmt, s *State, label string) []Exit {
 			dom := sel(c.heapGet(h, "D."+name, sA2), m)
 			// visited ⊆ domain, entries are 0/1
 			h.assume(forall([]string{"k"}, "(! "+and(or(eq(sel(vis, "k"), "0"), eq(sel(vis, "k"), "1")), implies(eq(sel(vis, "k"), "1"), eq(sel(dom, "k"), "1")))+" :pattern ((select "+vis+" k)))"))
+			// a nil map has no keys: nothing has been visited
+			h.assume(implies(eq(m, "0"), eq(vis, "((as const (Array Int Int)) 0)")))
 			c.note("map iteration is verified for an arbitrary enumeration order; the loop body is assumed not to insert into the ranged map")
 		}
 		return c.loopCut(x, x.Pos(), s, li, iter, atHead)
